@@ -128,7 +128,7 @@ def run_shape(shape, tier):
     def h(ctx):
         from lsst.daf.relation import Calculation
 
-        env = Env()
+        env = Env(symbolic=True)
         tab = common.sym_table(ctx, "X", COLS, n, ordered=True, perm=True)
         add_abstract_leaf(env, "X", COLS, "it1", tab)
         if shape.get("pj"):
